@@ -29,10 +29,11 @@ REGISTRY = {
     "C03": {
         "engine": "engine_deser",
         "theorems": [(A + "NoCrashThm", "Api.C03_no_crashU"), (A + "NoCrashThm", "Api.no_crashU"), (A + "NoCrashThm", "Api.nc_unionSel"),
+                     (A + "CoerceUnionThm", "Api.no_crashC"), (A + "CoerceUnionThm", "Api.coerce_nc"),
                      (A + "NoCrashThm", "Api.C03_no_crash"), (A + "NoCrashThm", "Api.C03_no_crash_json"), (A + "NoCrashThm", "Api.no_crash"),
                      (A + "NoCrashThm", "Api.jsonX_of_json"), (A + "NoCrashThm", "Api.C03_crash_counterexamples")],
         "partial": "no-crash proved in strict mode on Ty.accU (unions of any shape at any depth) without uniqueItems for every datum of Py.jsonX: JSON containers with string keys whose leaves may be "
-                   "any object that is not an instance of the JSON classes (tuples, bytes, ...); coercion, non-string keys, JSON-class subclasses and purity "
+                   "any object that is not an instance of the JSON classes (tuples, bytes, ...), and likewise for the tree built with the default coercer (no_crashC); non-string keys, JSON-class subclasses and purity "
                    "(input not modified) are decided by the correspondence / harness only",
         "assumptions": MODEL_ASSUMPTIONS + ["the model is a pure function: 'never modifies the input' is a harness test, not a theorem"],
     },
@@ -59,9 +60,11 @@ REGISTRY = {
     },
     "C14": {
         "engine": "engine_deser",
-        "theorems": [(A + "CoerceThm", "Api.C14_monotone_partial"), (A + "CoerceThm", "Api.coerce_prim"), (A + "CoerceThm", "Api.coerce_instance"), (A + "CoerceThm", "Api.C14_coerce_table"), (A + "CoerceSrcThm", "Api.coerce_matches_source"), (A + "CoerceSrcThm", "Api.C14_source_table"),
+        "theorems": [(A + "CoerceUnionThm", "Api.C14_monotoneU"), (A + "CoerceUnionThm", "Api.conforms_acceptedC"), (A + "CoerceThm", "Api.C14_monotone_partial"), (A + "CoerceThm", "Api.coerce_prim"), (A + "CoerceThm", "Api.coerce_instance"), (A + "CoerceThm", "Api.C14_coerce_table"), (A + "CoerceSrcThm", "Api.coerce_matches_source"), (A + "CoerceSrcThm", "Api.C14_source_table"),
                      (A + "CoerceThm", "Api.C14_union_witness_repaired"), (A + "TablesThm", "Api.Tables.C14_word_table")],
-        "partial": "monotonicity proved for everything but sets, general unions and field fall-back; numeral parsing (int(str), float(str)) enters as an oracle table",
+        "partial": "monotonicity proved on Ty.accU without uniqueItems (unions of any shape at any depth: C14_monotoneU, through `conforms`: whatever conforms is accepted "
+                   "by the coerced tree) for good data; sets and field fall-back outside; equality of the results for union-free types and custom coercers are decided by "
+                   "the checks on the real code; numeral parsing (int(str), float(str), str(float)) enters as oracle tables",
         "assumptions": MODEL_ASSUMPTIONS + ["CPython's int(str) / float(str) / str(float) are oracle tables (CoerceEnv), modelled not verified"],
     },
 }
